@@ -240,6 +240,11 @@ def h_probe(ctx: Any, code: str, n: int, script: str, mode: str = 'C', stacks: A
         done = False
     except Exception as e:
         C.reraise_control(e)
+        if (opname in ('deal_hole', 'deal_board') and isinstance(e, KeyError) and can
+                and args and args[0] == '??' and 'UNKNOWN' in repr(e)):
+            # listed known finding F12: an UNKNOWN card that completes a street is accepted by the
+            # verifier, then hand evaluation / stud opener selection fails on it with KeyError
+            ctx.known('F12')
         ctx.fail('operation-raised-wrong-exception', f'{opname}{args} (can={can}): {type(e).__name__}: {e}')
     ctx.check(done == can, 'operation-disagrees-with-query', lambda: f'{opname}{args} can={can} done={done}')
     if not done:
@@ -279,7 +284,56 @@ def jobs(tier: str, seed: int) -> list[dict]:
                             params=dict(code=code, n=n, script=script, mode=mode, stacks=stacks,
                                         boards=boards),
                             budget_s=B, must_cover=['refused'], warnings='error'))
+    out.append(dict(name='known/F12', kind='native', fn='known_f12', params={}, budget_s=30))
     out.append(dict(name='NT/n3/ccc/C/warnings-ignored', fn='h_probe',
                     params=dict(code='NT', n=3, script='ccc', mode='C', warn='ignore'),
                     budget_s=B, must_cover=['refused'], warnings='ignore'))
     return out
+
+
+def known_f12() -> dict:
+    """re-run the listed inputs of known finding F12 natively."""
+    import warnings as w
+    from pokerkit import Automation, FixedLimitSevenCardStud, NoLimitTexasHoldem, Mode
+    w.simplefilter('ignore')
+    hits = []
+    # (a) stud: unknown up card completing fourth street -> opener lookup KeyError
+    st = FixedLimitSevenCardStud.create_state((Automation.ANTE_POSTING, Automation.BET_COLLECTION,
+                                               Automation.CARD_BURNING), True, 1, 1, 2, 4, (100, 100), 2)
+    for i in range(2):
+        st.deal_hole('AsKs' if i == 0 else 'AdKd')
+        st.deal_hole('2c' if i == 0 else '3c')
+    st.post_bring_in()
+    st.check_or_call()
+    st.deal_hole('4c')
+    try:
+        ok = st.can_deal_hole('??')
+        st.deal_hole('??')
+    except KeyError:
+        if ok:
+            hits.append("F7S n=2: can_deal_hole('??') is True for the up card that completes fourth street, deal_hole('??') raises KeyError(Rank.UNKNOWN) after changing the state")
+    except Exception:
+        pass
+    # (b) hold'em: unknown river card with all-in hands shown -> evaluation KeyError
+    st = NoLimitTexasHoldem.create_state((Automation.ANTE_POSTING, Automation.BET_COLLECTION,
+                                          Automation.BLIND_OR_STRADDLE_POSTING, Automation.CARD_BURNING,
+                                          Automation.HOLE_CARDS_SHOWING_OR_MUCKING, Automation.HAND_KILLING,
+                                          Automation.RUNOUT_COUNT_SELECTION),
+                                         True, 0, (1, 2), 2, (20, 20), 2, mode=Mode.CASH_GAME)
+    st.deal_hole('AsKs')
+    st.deal_hole('AdKd')
+    st.complete_bet_or_raise_to(20)
+    st.check_or_call()
+    st.deal_board('2c3c4c')
+    st.deal_board('5d')
+    try:
+        ok = st.can_deal_board('??')
+        st.deal_board('??')
+    except KeyError:
+        if ok:
+            hits.append("NT heads-up all-in with shown hands: can_deal_board('??') is True for the river, deal_board('??') raises KeyError(Rank.UNKNOWN) after changing the state")
+    except Exception:
+        pass
+    if hits:
+        return dict(status='known-finding', what='F12 ' + ' || '.join(hits), native_replays=len(hits))
+    return dict(status='confirmed', reason='F12 no longer reproduces', native_replays=2)
